@@ -9,5 +9,14 @@ claimed = {
  "C05": ("Proof that every counter operation returns min(true value, capacity) with the true value computed in 128-bit arithmetic, for all 2^64/2^128 operand pairs; zero-annotation overflow sweep over Count arithmetic outside package counts.",
          "Linear-time clause not decidable by contracts (complexity). Narrow-then-wide (32-bit object sizes) is a recorded finding when claimed. M3.",
          "DESIGN.md §7 C05"),
+ "C15": ("Proof that GetConfig consumes exactly one NUL-terminated record per iteration for every byte string git may print (transition invariant), with key/value split at the first LF inside the record, and full functional contract of configKeyMatchesPrefix (component boundary at '.').",
+         "Assumes A-GIT-CONFIG-Z (record format, scopes and order are git's), A-STD-SEARCH (IndexByte/HasPrefix contracts). augmentFromConfig/readRefgroupsFromGitconfig are listed in evidence once under contract.",
+         "DESIGN.md §7 C15"),
+ "C16": ("Proof of totality for all byte strings: every index, slice bound and explicit panic in the tree/commit/tag/header/batch-header/reference/oid parsers is discharged with precondition true; strict consumption (termination measures) for the iterators; NextEntry consumes mode SP name NUL oid[20].",
+         "Assumes A-STD-SEARCH/A-STD-CONV contracts of strings/bytes/strconv/hex. Losslessness of the byte layout is stated through lengths and offsets; numeric Filemode drops leading zeros (canonical modes only).",
+         "DESIGN.md §7 C16"),
+ "C01": ("Proof of the per-object accounting: each record{Blob,Tree,Commit,Tag,Reference} call adds exactly one to its count and the object's size/entry count to the totals (saturating), with exact frames.",
+         "What git enumerates is A-GIT-REVLIST; that each object reaches exactly one record* call is proved only once RegisterX / ScanRepositoryUsingGraph are under contract (listed in evidence).",
+         "DESIGN.md §7 C01"),
 }
 na = {}
